@@ -64,8 +64,18 @@ def make_metric(rec, name, inv, kw_seen):
         kw_seen.append(threshold is not None and not extra)
         rec.ev("MetricCall", obj=sd.alpha_obj(s, inv))
         c = s.cm(threshold)
+        if name == "vec":
+            # array-valued metric whose second component is undefined on some samples
+            top = c.tp() + c.fp()
+            return np.array([float(c.fp()), float(c.tp()) if top > 0 else np.nan])
         return c.fp() if name == "fp_count" else c.fn()
     return metric
+
+
+def comp_rows(rows, ncomp):
+    """rows (n,) or (n, ncomp) -> list of component lists of [n, d] (NaN = [0, 0])"""
+    a = np.asarray(rows, dtype=float).reshape(-1, ncomp)
+    return [[[0, 0] if x != x else [int(x), 1] if x == int(x) else rat(x) for x in row] for row in a]
 
 
 def split_runs(beh):
@@ -94,7 +104,9 @@ def replay_behaviour(beh, cid, ids):
     inv = sd.inv_map(G)
     src = sd.build(src_a, G)
     kw_seen = []
-    metric = make_metric(rec, "fp_count", inv, kw_seen)
+    mname = "vec" if cid % 3 == 0 else "fp_count"
+    ncomp = 2 if mname == "vec" else 1
+    metric = make_metric(rec, mname, inv, kw_seen)
     for run_ in runs:
         last = run_[-1]["state"]
         st = [s for s in run_ if s["action"] == "Start"][0]
@@ -114,20 +126,20 @@ def replay_behaviour(beh, cid, ids):
 
         del kw_seen[:]
         cfg = BootstrapConfig(nb_samples=n, bootstrap_method=method, sampling_method=sampler)
-        rec.ev("Start", call=call, n=n, src=rec_obj(src_a), metric="fp_count", t2=thr, method=method,
+        rec.ev("Start", call=call, n=n, src=rec_obj(src_a), metric=mname, t2=thr, method=method,
                alpha=alpha)
-        ret = {"rows": [], "ci": [0, 0], "shape_ok": True, "same_seed_same_result": True,
-               "kwargs_seen": True, "exc": ""}
+        ret = {"rows": [], "ci": [], "shape_ok": True, "same_seed_same_result": True,
+               "kwargs_seen": True, "group_rows_ok": True, "exc": ""}
         try:
             t = G.thr(thr)
             if call == "metric":
                 rows = np.asarray(src.bootstrap_metric(metric, config=cfg, threshold=t))
-                ret["shape_ok"] = bool(rows.shape == (n,))
-                ret["rows"] = [[int(x), 1] for x in rows.reshape(-1)]
+                ret["shape_ok"] = bool(rows.shape == ((n,) if ncomp == 1 else (n, ncomp)))
+                ret["rows"] = comp_rows(rows, ncomp)
             else:
                 ci = np.asarray(src.bootstrap_ci(metric, alpha=alpha / 1000.0, config=cfg, threshold=t))
-                ret["shape_ok"] = bool(ci.shape == (2,))
-                ret["ci"] = [fx6(ci[0]), fx6(ci[1])]
+                ret["shape_ok"] = bool(ci.shape == ((2,) if ncomp == 1 else (ncomp, 2)))
+                ret["ci"] = [[fx6(x[0]), fx6(x[1])] for x in ci.reshape(-1, 2)]
             ret["kwargs_seen"] = bool(all(kw_seen)) and len(kw_seen) > 0
         except Exception as ex:  # noqa
             ret["exc"] = sd.exc_str(ex)
@@ -164,14 +176,14 @@ def seeded_behaviour(k, cid, ids, seed):
     cfg = BootstrapConfig(nb_samples=n, sampling_method=sm, stratified_sampling=strat,
                           ratio=0.6 if sm == "proportion" else None, bootstrap_method="quantile")
     rec.ev("Start", call="metric", n=n, src=rec_obj(o), metric=canon, t2=thr, method="quantile", alpha=50)
-    ret = {"op": "Return", "rows": [], "ci": [0, 0], "shape_ok": True, "same_seed_same_result": True,
-           "kwargs_seen": True, "exc": "", "cid": cid, "beh": cid, "conc": "ident"}
+    ret = {"op": "Return", "rows": [], "ci": [], "shape_ok": True, "same_seed_same_result": True,
+           "kwargs_seen": True, "group_rows_ok": True, "exc": "", "cid": cid, "beh": cid, "conc": "ident"}
     try:
         t = G.thr(thr)
         np.random.seed(seed + k)
         rows = np.asarray(src.bootstrap_metric(name, config=cfg, threshold=t))
         ret["shape_ok"] = bool(rows.shape == (n,))
-        ret["rows"] = [rat(x) for x in rows.reshape(-1)]
+        ret["rows"] = [[rat(x)] for x in rows.reshape(-1)]
         keep = len(evs)
         np.random.seed(seed + k)
         rows2 = np.asarray(src.bootstrap_metric(name, config=cfg, threshold=t))
@@ -182,6 +194,65 @@ def seeded_behaviour(k, cid, ids, seed):
     ret["id"] = next(ids)
     evs.append(ret)
     return evs, o
+
+
+def group_behaviour(k, cid, ids, seed):
+    """GroupScores: group-wise metrics by NAME (resolved on the object's own class) with kwargs; the
+    same seed must give the same results on an equal object whose per-group cache was touched in
+    another order before (a read-only public call)."""
+    from score_analysis import BootstrapConfig, GroupScores
+    rnd = np.random.RandomState(seed * 31 + k)
+    ng = 3
+    npos, nneg = int(rnd.randint(5, 9)), int(rnd.randint(5, 9))
+    data = dict(pos=rnd.randint(0, 6, npos).astype(float), neg=rnd.randint(0, 6, nneg).astype(float),
+                pos_groups=np.array(["abc"[i % ng] for i in range(npos)]),
+                neg_groups=np.array(["abc"[(i + 1) % ng] for i in range(nneg)]),
+                score_class=["pos", "neg"][k % 2], equal_class=["pos", "neg"][(k // 2) % 2])
+    samples = []
+
+    class RecG(GroupScores):
+        def bootstrap_sample(self, config=None):
+            s = GroupScores.bootstrap_sample(self, config)
+            samples.append(s)
+            return s
+
+    A, B = RecG(**data), RecG(**data)
+    B["c"]                                           # touch the cache out of order
+    name = ["group_fnr", "group_fpr", "group_tpr", "group_tnr"][k % 4]
+    strat = ["by_group", None, "by_label"][k % 3]
+    sm = ["replacement", "dynamic", "single_pass"][(k // 3) % 3]
+    n = int(rnd.randint(2, 5))
+    cfg = BootstrapConfig(nb_samples=n, sampling_method=sm, stratified_sampling=strat, bootstrap_method="quantile")
+    th = np.array([1.5, 3.0])
+    e = {"id": next(ids), "cid": cid, "beh": cid, "conc": "ident", "op": "Start", "exc": "", "call": "metric",
+         "n": n, "src": {"pos": [], "neg": [], "ep": 0, "en": 0, "sc": "pos", "ec": "pos"}, "metric": "fp_count",
+         "t2": 0, "method": "quantile", "alpha": 50}
+    ret = {"id": 0, "cid": cid, "beh": cid, "conc": "ident", "op": "Return", "exc": "", "rows": [], "ci": [],
+           "shape_ok": True, "same_seed_same_result": True, "kwargs_seen": True, "group_rows_ok": True,
+           "group_call": True}
+    try:
+        np.random.seed(seed + k)
+        ra = np.asarray(A.bootstrap_metric(name, config=cfg, threshold=th))
+        got = list(samples)
+        np.random.seed(seed + k)
+        rb = np.asarray(B.bootstrap_metric(name, config=cfg, threshold=th))
+        ret["shape_ok"] = bool(ra.shape == (n, ng, 2))
+        ret["same_seed_same_result"] = bool(np.array_equal(ra, rb, equal_nan=True))
+        ok = len(got) == n
+        for j in range(min(n, len(got))):
+            ok = ok and np.array_equal(ra[j], np.asarray(getattr(got[j], name)(th)), equal_nan=True)
+        ret["group_rows_ok"] = bool(ok)
+        np.random.seed(seed + k)
+        ca = np.asarray(A.bootstrap_ci(name, alpha=0.1, config=cfg, threshold=th))
+        np.random.seed(seed + k)
+        cb = np.asarray(B.bootstrap_ci(name, alpha=0.1, config=cfg, threshold=th))
+        ret["shape_ok"] = ret["shape_ok"] and bool(ca.shape == (ng, 2, 2))
+        ret["same_seed_same_result"] = ret["same_seed_same_result"] and bool(np.array_equal(ca, cb, equal_nan=True))
+    except Exception as ex:  # noqa
+        ret["exc"] = sd.exc_str(ex)
+    e["n"] = 0                                       # the judge's loop clauses do not apply to this event pair
+    ret["id"] = next(ids)
+    return [e, ret]
 
 
 def run(ctx: core.Ctx):
@@ -211,6 +282,9 @@ def run(ctx: core.Ctx):
         evs, o = seeded_behaviour(k, len(cases), ids, ctx.seed)
         events += evs
         cases.append({"kind": "seeded", "k": k, "source": o})
+    for k in range(par["nseed"]):
+        events += group_behaviour(k, len(cases), ids, ctx.seed)
+        cases.append({"kind": "group", "k": k})
     ctx.sample([e for e in events if e["cid"] == 0])
     ctx.judge("Trace_C14", events, cases=cases, batch=2000, env_extra={"TABLES_FILE": str(tables)})
     ctx.rule = ("behaviours of the BootLoop model generated by TLC -simulate (scripted sampler, call, "
@@ -229,6 +303,8 @@ def replay(ctx: core.Ctx, body):
     ids = iter(range(1, 10**9))
     if c.get("kind") == "seeded":
         evs, _ = seeded_behaviour(c["k"], 0, ids, body.get("seed", ctx.seed))
+    elif c.get("kind") == "group":
+        evs = group_behaviour(c["k"], 0, ids, body.get("seed", ctx.seed))
     else:
         print("replay of TLC behaviours: re-run the check with the same VERIF_SEED", flush=True)
         evs = []
